@@ -139,7 +139,9 @@ def sym_neutral(v, env, cache):
             if a.ndim <= 1:
                 return [sym_neutral(x, env, cache) for x in a.data]
             return [nest(r) for r in a.iterate()]
-        return {'array': nest(v) if v.ndim else sym_neutral(v.data[0], env, cache), 'shape': list(v.shape)}
+        if v.ndim == 0:
+            return sym_neutral(v.data[0], env, cache)
+        return {'array': nest(v), 'shape': list(v.shape)}
     if isinstance(v, ClassVal):
         return {'class': v.name}
     if isinstance(v, (FunctionVal, Builtin)):
